@@ -1,5 +1,5 @@
 """property id -> rules"""
-from rules import task_constraints, tasks, optional, logic, resources, resource_constraints
+from rules import task_constraints, tasks, optional, logic, resources, resource_constraints, completeness
 from sa.selftest import self_test_rule
 
 NOTES = ("Every check decides structural clauses (necessary conditions) of its property from /repo's source as parsed on "
@@ -8,6 +8,22 @@ NOTES = ("Every check decides structural clauses (necessary conditions) of its p
 NOT_APPLICABLE = {}
 
 PROPERTIES = {
+    "C05": {
+        "rules": completeness.RULES,
+        "thorough": [self_test_rule("C05")],
+        "level_text": "Completeness of the encoder is not decidable as a whole by static analysis; this check decides the "
+                      "necessary conditions visible in the source: for every task class, task constraint and (non periodic) "
+                      "resource constraint the emitted term is NOT TIGHTER than the documented relation (the <= direction of "
+                      "the same order-type / canonical-atom decisions as C01-C04, exhaustive per template); overlapping "
+                      "definitions of one variable are rejected (R-FUNDEF); optional entities are never bound when unscheduled "
+                      "(R-SCHED-GUARD); a None-test that is constant by the declared type may not guard an emitted default "
+                      "(R-CONST-GUARD); the driver reports False only after an unsat/unknown check (R-VERDICT-MAP).",
+        "level_note": "NOT decided: completeness of arbitrary combinations of elements, the `% period` encodings, buffers' "
+                      "array/quantifier encodings, and that `unknown` is only a resource limit. Those need the solver.",
+        "explanation": "Static analysis, <= direction of the specification tables over the extracted IR (order types, "
+                       "canonical atoms), functional-definition consistency, constant-guard detection over the class table, "
+                       "return-path analysis of solve().",
+    },
     "C04": {
         "rules": resource_constraints.RULES,
         "thorough": [self_test_rule("C04")],
